@@ -2544,10 +2544,40 @@ def _search_case(ctx, case, raw, ncfg, stats):
         ctx.stats.case('search:refused', canon, nontrivial=False)
         if not isinstance(e, (ValueError, AssertionError)):
             ctx.violate('cells:exception', f'{label}: Dislocation(...) raised {type(e).__name__}: {msg[:120]}', info)
+        elif case.get('hex4'):
+            # the same slip system in 3-index notation: a refusal cannot depend on the notation
+            try:
+                make_disl(dict(case, hex4=False))
+            except Exception:  # noqa
+                return
+            ctx.violate('cells:hex4-refused', f'{label}: given with 4-index (Miller-Bravais) vectors the system is refused '
+                        f'({type(e).__name__}: {msg[:100]}), with the equivalent 3-index vectors it is accepted', info)
         return
     ctx.stats.case('search:cells:' + raw['crystal'], canon)
     if not _oracle_cells(ctx, case, raw, ucell, d, info, label):
         return
+    if case.get('hex4'):
+        # 4-index input is notation only: same cells as for the equivalent 3-index input, uvws reported in 4 indices
+        try:
+            _u3, d3 = make_disl(dict(case, hex4=False))
+        except Exception as e:  # noqa
+            ctx.violate('cells:hex4-refused', f'{label}: accepted with 4-index vectors, refused with the equivalent 3-index '
+                        f'vectors ({type(e).__name__}: {str(e)[:100]})', info)
+            return
+        uv4, uv3 = np.asarray(d.uvws, dtype=float), np.asarray(d3.uvws, dtype=float)
+        sc_ = float(np.abs(np.asarray(d3.rcell.box.vects)).max())
+
+        def differ(a_, b_, tol_):
+            a_, b_ = np.asarray(a_, dtype=float), np.asarray(b_, dtype=float)
+            return a_.shape != b_.shape or float(np.abs(a_ - b_).max()) > tol_
+        if uv4.shape != (3, 4) or uv3.shape != (3, 3) or np.abs(uv4[:, :3].sum(axis=1)).max() > 1e-9 \
+                or differ([[r[0] - r[2], r[1] - r[2], r[3]] for r in uv4], uv3, 1e-9) \
+                or differ(d.uvws_prim, d3.uvws_prim, 0.0) \
+                or differ(d.rcell.box.vects, d3.rcell.box.vects, 1e-9 * sc_) \
+                or differ(d.shifts, d3.shifts, 1e-9 * sc_):
+            ctx.violate('cells:hex4', f'{label}: 4-index input gives uvws {uv4.tolist()}, rcell {np.asarray(d.rcell.box.vects).tolist()}; '
+                        f'the equivalent 3-index input gives uvws {uv3.tolist()}, rcell {np.asarray(d3.rcell.box.vects).tolist()}', info)
+            return
     _oracle_shifts(ctx, d, info, label)
     for k in range(ncfg):
         kind = 'mono' if k % 2 == 0 else 'array'
